@@ -30,14 +30,19 @@ def main():
     try:
         shutil.copy(demo, wt + "/tests/" + os.path.basename(demo))
         demo_name = os.path.basename(demo)[:-3]
-        feat = ""
-        rc, out = sh("CARGO_TARGET_DIR=%s/target cargo test --offline --test %s 2>&1" % (wt, demo_name), cwd=wt)
-        if rc != 0 and ("serde" in open(demo).read()):
-            feat = "--features serde"
-            rc, out = sh("CARGO_TARGET_DIR=%s/target cargo test --offline %s --test %s 2>&1" % (wt, feat, demo_name), cwd=wt)
+        feat = "--features serde" if "serde" in open(demo).read() else ""
+        rc, out = sh("CARGO_TARGET_DIR=%s/target cargo test --offline %s --test %s 2>&1" % (wt, feat, demo_name), cwd=wt)
         meta["demo_features"] = feat
         meta["demo_passes_without_change"] = rc == 0
         rc, out = sh("git apply %s" % patch, cwd=wt)
+        if rc != 0:
+            # written against an earlier commit of /repo (before a later fix: commit): three-way merge
+            rc, out = sh("git apply --3way %s" % patch, cwd=wt)
+            if rc == 0:
+                rc2, newp = sh("git diff HEAD -- src", cwd=wt)
+                open(patch, "w").write(newp)
+                sh("git reset -q", cwd=wt)
+                meta["patch_rebased"] = True
         meta["patch_applies"] = rc == 0
         ok1, r1, _ = tests_ok(wt, "--lib --tests --doc" if False else "")
         # the demo is part of `cargo test` now; judge the existing suite without it
